@@ -366,6 +366,7 @@ Print Assumptions C18_pow2_rate_nonvacuous.
     from its SOURCE on every run into PrimFloat terms (Gen/TrF.v, harness/vt/pytr.py; the closure's free variables
     are parameters), equals the hand-written model for all arguments, bit for bit. *)
 Theorem C18_source_frames_from_times : forall fps occ s e,
+  finb (PrimFloat.mul s fps) = true -> finb (PrimFloat.mul e fps) = true ->
   NS.Gen.TrF.trf_frames_from_times fps occ s e = Some (frames_from_times fps occ s e).
 Proof. exact NS.Proofs.TrEquivF18.trf_frames_from_times_eq. Qed.
 Print Assumptions C18_source_frames_from_times.
